@@ -1,6 +1,108 @@
-/-! `pmodel transport`: line-protocol driver (stub — replaced by the owner of this model). -/
-namespace Driver.Transport
+import PhreeqcVerif.Model.Util
+import PhreeqcVerif.Model.NumOps
+import PhreeqcVerif.Model.Transport
+/-! `pmodel transport`: line protocol of the C11 model.
 
-def run : IO Unit := IO.eprintln "pmodel transport: not implemented"
+    setup <flow -1|0|1> <bf> <bl> <corr 0|1> <diffc> <timest> <n> <L1..Ln> <D1..Dn>     rationals as `num/den`
+        → `PLAN nmix=<k> pre=<sub-mixes before the shift> maxmix=<rat>` and one `W <i> <l> <s> <r>` per cell (exact rationals)
+    force <k>            recompute the weights for `k` sub-mixes (used only when 1.5·maxmix is an integer up to rounding)
+    col <name> <first> <last> <cell1> … <celln>     one extensive quantity (doubles as 16 hex digits)
+    run <shifts>         → `S <step> <name> <cells…>` for every step and quantity (Float execution of `transportStepWith`)
+    advect <shifts>      → the same for the ADVECTION keyword
+    reset                forget the quantities
+    mark <id>            → `M <id>` -/
+namespace Driver.Transport
+open PhreeqcVerif PhreeqcVerif.Util PhreeqcVerif.Transport
+
+def parseRat (s : String) : Option Rat :=
+  match s.splitOn "/" with
+  | [a] => a.toInt?.map fun n => (n : Rat)
+  | [a, b] => match a.toInt?, b.toNat? with
+    | some n, some d => if d = 0 then none else some (mkRat n d)
+    | _, _ => none
+  | _ => none
+
+def showRat (q : Rat) : String := s!"{q.num}/{q.den}"
+
+def allSome {β : Type} : List (Option β) → Option (List β)
+  | [] => some []
+  | none :: _ => none
+  | some x :: xs => (allSome xs).map (x :: ·)
+
+def parseSetup (ws : List String) : Option Setup :=
+  match ws with
+  | fl :: bf :: bl :: corr :: dc :: ts :: n :: rest =>
+    match fl.toInt?, bf.toNat?, bl.toNat?, corr.toNat?, parseRat dc, parseRat ts, n.toNat? with
+    | some fl, some bf, some bl, some corr, some dc, some ts, some n =>
+      if rest.length ≠ 2 * n then none else
+      match allSome ((rest.take n).map parseRat), allSome ((rest.drop n).map parseRat) with
+      | some ls, some ds =>
+        some { cells := (ls.zip ds).map fun (l, d) => { len := l, disp := d }
+               flow := if fl = 0 then Flow.none else if fl > 0 then Flow.forward else Flow.back
+               bconFirst := bf, bconLast := bl, correctDisp := corr ≠ 0, diffc := dc, timest := ts }
+      | _, _ => none
+    | _, _, _, _, _, _, _ => none
+  | _ => none
+
+def wFloat (w : W Rat) : W Float := { l := floatOfRat w.l, s := floatOfRat w.s, r := floatOfRat w.r }
+
+structure St where
+  setup : Option Setup := none
+  nmix : Nat := 0
+  weights : List (W Rat) := []
+  comps : Array (String × Col Float) := #[]
+
+def showCells (c : Col Float) : String := String.intercalate " " (c.cells.map hexOfFloat)
+
+def planLines (s : Setup) (nmix : Nat) (ws : List (W Rat)) (mx : Rat) : List String :=
+  s!"PLAN nmix={nmix} pre={preMixes s nmix} maxmix={showRat mx}" ::
+    (ws.zipIdx.map fun (w, i) => s!"W {i + 1} {showRat w.l} {showRat w.s} {showRat w.r}")
+
+def step (st : St) (line : String) : St × List String :=
+  match words line with
+  | "setup" :: rest =>
+    match parseSetup rest with
+    | some s => let p := initMix s
+                ({ st with setup := some s, nmix := p.nmix, weights := p.weights }, planLines s p.nmix p.weights p.maxmix)
+    | none => (st, ["bad-setup"])
+  | ["force", k] =>
+    match st.setup, k.toNat? with
+    | some s, some k => let r := rawMix s
+                        let ws := weightsWith r.1 k
+                        ({ st with nmix := k, weights := ws }, planLines s k ws r.2)
+    | _, _ => (st, ["bad-op"])
+  | "col" :: name :: f :: l :: cells =>
+    match floatOfHex f, floatOfHex l, allSome (cells.map floatOfHex) with
+    | some f, some l, some cs => ({ st with comps := st.comps.push (name, { first := f, cells := cs, last := l }) }, [])
+    | _, _, _ => (st, ["bad-col"])
+  | ["reset"] => ({ st with comps := #[] }, [])
+  | ["mark", i] => (st, [s!"M {i}"])
+  | ["run", k] =>
+    match st.setup, k.toNat? with
+    | some s, some k =>
+      let ws := st.weights.map wFloat
+      let stepF : Col Float → Col Float := transportStepWith ws st.nmix (preMixes s st.nmix) s.flow
+      let out := st.comps.toList.flatMap fun (name, c) =>
+        (runWith stepF k c).zipIdx.map fun (c', t) => s!"S {t + 1} {name} {showCells c'}"
+      (st, out)
+    | _, _ => (st, ["bad-op"])
+  | ["advect", k] =>
+    match k.toNat? with
+    | some k =>
+      let out := st.comps.toList.flatMap fun (name, c) =>
+        (advectionRun k c).zipIdx.map fun (c', t) => s!"S {t + 1} {name} {showCells c'}"
+      (st, out)
+    | none => (st, ["bad-op"])
+  | [] => (st, [])
+  | _ => (st, ["bad-op"])
+
+def run : IO Unit := do
+  let lines ← readLines (← IO.getStdin)
+  let out ← IO.getStdout
+  let mut st : St := {}
+  for l in lines do
+    let (st', o) := step st l
+    st := st'
+    for s in o do out.putStrLn s
 
 end Driver.Transport
